@@ -1,10 +1,31 @@
 # run specification for C14 (loaded by checks_config.py)
 CHECK = {'level': 'exploration',
- 'rule': 'TODO',
- 'level_text': 'TODO',
- 'level_note': 'TODO',
- 'technique': 'property-based state-machine testing (rapid) with invariant oracle',
- 'assumptions': [],
- 'quick': [{'pkg': 'c14', 'run': 'TestRegress|TestPoolStateMachine', 'checks': 20000, 'timeout': 600},
-           {'pkg': 'c14', 'run': 'TestPoolConcurrent', 'checks': 2000, 'timeout': 600}],
- 'thorough': [{'pkg': 'c14', 'run': 'TestRegress|TestPoolStateMachine', 'checks': 300000, 'shards': 16, 'timeout': 1500}]}
+ 'rule': 'rapid state machine on a real txpool.TransactionPool (mock connection, scripted verifier): MaxTransactions 1-6, per-account limit 1-4, '
+         'replacement difference {1,10}, entrance priority {0,5}, 3-4 senders, nonces 0-8 (run-continuing / occupied-slot / uniform), fees from a set '
+         'with ties and just-below/just-enough replacement steps, 3 parameter sizes (fee priority = fee/size), actions Add (new / known / exact '
+         'duplicate), Remove (pooled / unknown), block applied (Remove each) and reverted (Add each back), promotion pass, promotion pass with an Add '
+         'or Remove of the same sender landing while the pass is verifying, verifier answer changes (ok/pending/invalid/error); 30 actions per '
+         'history (80 in part of the thorough tier); invariants I1-I5 after every single pool call, every call under a watchdog. Plus concurrent '
+         'workloads (1 promotion goroutine + 3-7 goroutines of Add/Remove/block/getter calls, yields and 100 us pauses at the verifier) checked at '
+         'quiescence, under -race in the thorough tier. Non-trivial = history that reached the pool or a per-sender limit, or performed a '
+         'replacement, or a promotion followed by a demotion (concurrent case: limit reached or processables at the end). Distinct by digest of the '
+         'full operation history',
+ 'level_text': 'Invariant oracle evaluated on an internal snapshot (three indexes + per-sender lists) and on the public getters after every pool call '
+               'of generated histories: index agreement (I1), size bounds (I2), one transaction per sender/nonce and the replacement fee rule (I3), '
+               'processable set ascending, gap-free, member of the list and answered ok by the verifier when it became processable (I4), Add/Remove '
+               'results agree with membership (I5); liveness by watchdog with goroutine-dump evidence (every goroutine inside the pool parked on its '
+               'locks). Sampled, not exhaustive.',
+ 'level_note': 'Which transaction is evicted / rejected at a full pool is not asserted (any choice that keeps the invariants passes). Concurrent '
+               'phase fixes the workload, not the Go schedule. On a tree where the listed known findings are present their triggers are avoided '
+               'by construction (pool never filled, no successful replacement / per-sender eviction, no promotion pass while a pending answer is '
+               'pooled, nothing touching a processable nonce during a pass), so those paths are only explored once the proposed fixes are in.',
+ 'technique': 'property-based state-machine testing (rapid) with invariant oracle, watchdog and race detector',
+ 'assumptions': ['Publish on the connection never fails (an Add that returns false after a failed announcement is outside the statement)',
+                 'promotion passes never overlap each other (TransactionPool.Start is the only caller of reorg)',
+                 'an empty per-sender list left in perAccount counts as index disagreement',
+                 '"passed verification" = the scripted ABI answered Ok (not Pending) for that transaction in the call that made it processable'],
+ 'quick': [{'pkg': 'c14', 'run': 'TestRegress|TestPoolStateMachine', 'checks': 12000, 'timeout': 600},
+           {'pkg': 'c14', 'run': 'TestPoolConcurrent', 'checks': 1200, 'timeout': 600}],
+ 'thorough': [{'pkg': 'c14', 'run': 'TestRegress|TestPoolStateMachine', 'checks': 100000, 'shards': 8, 'timeout': 2400},
+              {'pkg': 'c14', 'run': 'TestPoolStateMachine', 'checks': 40000, 'steps': 80, 'shards': 4, 'timeout': 2400},
+              {'pkg': 'c14', 'run': 'TestPoolConcurrent', 'race': True, 'checks': 12000, 'shards': 4, 'timeout': 2400}]}
